@@ -118,7 +118,8 @@ func (c *Ctx) initFactEngine() {
 	feCtx = c
 	paramNonNegCache = map[*ssa.Parameter]int{}
 	entryFactCache = map[*ssa.Function][]Lin{}
-	resultFactCache = map[*ssa.Function][]func(fi *funcInfo, a string, call *ssa.Call) Lin{}
+	phiRangeCache = map[*ssa.Phi]*constRange{}
+	resultFactCache = map[resKey][]func(fi *funcInfo, a string, call *ssa.Call) Lin{}
 	prog = c.prog
 	cg = c.callgraph()
 	modSet = map[*ssa.Function]map[string]bool{}
@@ -126,6 +127,7 @@ func (c *Ctx) initFactEngine() {
 	fiByFn = map[*ssa.Function]*funcInfo{}
 	computeModSets(ssautil.AllFunctions(c.prog))
 	c.establishSlotInvariants(c.prop == "C01")
+	c.loadAssumptions()
 }
 
 func runC01(c *Ctx) {
@@ -1215,7 +1217,6 @@ func (c *Ctx) recursionGates(fns []*ssa.Function, reach map[*ssa.Function]bool) 
 			}
 		}
 	}
-	bindProc := c.methodOpt("postscript", "Interpreter", "bindProc")
 	execFn := reg.op("systemdict", "exec")
 	eexecFn := reg.op("systemdict", "eexec")
 	gated := func(e cgEdge) (string, bool) {
@@ -1260,26 +1261,11 @@ func (c *Ctx) recursionGates(fns []*ssa.Function, reach map[*ssa.Function]bool) 
 			if popped {
 				return "each level consumes one operand (stack height <= 501)", true
 			}
-		case e.from == bindProc && e.to == bindProc:
-			// nesting depth of procedure objects: literals are limited by the procStart gate, dynamic construction by the budget
-			// every place that opens a procedure body (appends to the list of open bodies) is
-			// dominated by a constant bound on the number of open bodies
-			nPush, nBounded := 0, 0
-			for _, g := range c.modFuncs {
-				eachInstr(g, func(ins ssa.Instruction) {
-					if st, ok := ins.(*ssa.Store); ok && isFieldAddr(st.Addr, ia.T, c.fld("intp.procStart")) {
-						if _, isCall := st.Val.(*ssa.Call); isCall {
-							nPush++
-							if k, ok := upperBoundConst(domConds(st.Block()), func(v ssa.Value) bool { return lenOfField(v, ia.T, c.fld("intp.procStart")) }); ok && k <= 10000 {
-								nBounded++
-							}
-						}
-					}
-				})
-			}
-			okGate := nPush > 0 && nPush == nBounded
-			if okGate {
-				return "recursion depth = nesting depth of the procedure object; literal nesting is limited by the procStart gate, dynamic nesting by the operation budget", true
+		case e.from == e.to && com.StaticCallee() == e.to:
+			// self-recursion over an object graph the input builds (procedures can contain
+			// themselves, more than once): only a visited set bounds both the depth and the total work
+			if visitedSetGate(e.from, e.site) {
+				return "self-recursion behind a visited set: the call is dominated by `seen[k]` being false and `seen[k] = true` for a key derived from the argument, and passes the same set on; depth and total work are bounded by the number of distinct objects, each of which costs an operation or a token to create", true
 			}
 		}
 		return "", false
@@ -1332,7 +1318,7 @@ func (c *Ctx) recursionGates(fns []*ssa.Function, reach map[*ssa.Function]bool) 
 		}
 	}
 	if found {
-		c.fail("RECURSE", strings.Join(dedup(cyc), " → "), "call-graph cycle without a gate", token.NoPos, "the functions "+strings.Join(cyc, " → ")+" can call each other in a cycle that passes none of the depth gates (execution depth, nested eexec refusal, operand consumption, procedure nesting): hostile input can recurse until the goroutine stack is exhausted")
+		c.fail("RECURSE", strings.Join(dedup(cyc), " → "), "call-graph cycle without a gate", token.NoPos, "the functions "+strings.Join(cyc, " → ")+" can call each other in a cycle that passes none of the gates (execution depth, nested eexec refusal, operand consumption, visited set): hostile input can recurse until the goroutine stack is exhausted, or — for a recursion over objects that can contain themselves — keep one operator busy for a time exponential in the size of the input")
 	} else {
 		c.ok("RECURSE", "reader call graph", "every call-graph cycle passes a gate", token.NoPos, fmt.Sprintf("%d functions, %d edges, %d gate edges removed, remainder acyclic", len(fns), len(edges), ngated), "")
 	}
@@ -1622,4 +1608,116 @@ func mustCall(g, target *ssa.Function, depth int) bool {
 		st = append(st, b.Succs...)
 	}
 	return true
+}
+
+// visitedSetGate: the recursive call at site (callee = f itself) can only be reached after a key
+// derived from f's arguments was found absent from a map parameter of f and was then entered
+// into it, and the same map is passed on to the callee.
+func visitedSetGate(f *ssa.Function, site ssa.CallInstruction) bool {
+	com := site.Common()
+	for pi, p := range f.Params {
+		mt, ok := p.Type().Underlying().(*types.Map)
+		if !ok {
+			continue
+		}
+		if b, ok := mt.Elem().Underlying().(*types.Basic); !ok || b.Kind() != types.Bool {
+			if _, isStruct := mt.Elem().Underlying().(*types.Struct); !isStruct {
+				continue
+			}
+		}
+		// the same set goes to the callee
+		args := com.Args
+		if pi >= len(args) || origin(args[pi]) != ssa.Value(p) {
+			continue
+		}
+		// an update seen[k] = … with k depending on a parameter, dominating the call
+		for _, b := range f.Blocks {
+			for _, ins := range b.Instrs {
+				mu, ok := ins.(*ssa.MapUpdate)
+				if !ok || origin(mu.Map) != ssa.Value(p) || !dominatesInstr(mu, site) {
+					continue
+				}
+				if !dependsOnParam(mu.Key, f, p) {
+					continue
+				}
+				// … and a dominating test that the key was absent
+				for _, cd := range domConds(site.Block()) {
+					lk := lookupOf(cd.v)
+					if lk == nil || origin(lk.X) != ssa.Value(p) || !sameKey(lk.Index, mu.Key) {
+						continue
+					}
+					if !cd.truth {
+						return true
+					}
+				}
+			}
+		}
+	}
+	return false
+}
+
+// lookupOf: v is the (boolean) result of a map lookup, or the ok flag of a comma-ok lookup.
+func lookupOf(v ssa.Value) *ssa.Lookup {
+	switch x := v.(type) {
+	case *ssa.Lookup:
+		return x
+	case *ssa.Extract:
+		if lk, ok := x.Tuple.(*ssa.Lookup); ok && lk.CommaOk {
+			return lk
+		}
+	}
+	return nil
+}
+
+func sameKey(a, b ssa.Value) bool {
+	if a == b || origin(a) == origin(b) {
+		return true
+	}
+	// two loads of the same local holding the key
+	ua, ok1 := a.(*ssa.UnOp)
+	ub, ok2 := b.(*ssa.UnOp)
+	return ok1 && ok2 && ua.Op == token.MUL && ub.Op == token.MUL && ua.X == ub.X
+}
+
+// dependsOnParam: the value is computed from a parameter of f other than skip.
+func dependsOnParam(v ssa.Value, f *ssa.Function, skip *ssa.Parameter) bool {
+	seen := map[ssa.Value]bool{}
+	var walk func(v ssa.Value) bool
+	walk = func(v ssa.Value) bool {
+		if v == nil || seen[v] {
+			return false
+		}
+		seen[v] = true
+		if p, ok := v.(*ssa.Parameter); ok {
+			return p != skip && p.Parent() == f
+		}
+		if u, ok := v.(*ssa.UnOp); ok && u.Op == token.MUL {
+			// a local: what was stored into it
+			if al, ok := u.X.(*ssa.Alloc); ok {
+				for _, r := range *al.Referrers() {
+					switch r := r.(type) {
+					case *ssa.Store:
+						if r.Addr == ssa.Value(al) && walk(r.Val) {
+							return true
+						}
+					case *ssa.FieldAddr:
+						for _, rr := range *r.Referrers() {
+							if st, ok := rr.(*ssa.Store); ok && st.Addr == ssa.Value(r) && walk(st.Val) {
+								return true
+							}
+						}
+					}
+				}
+			}
+		}
+		if ins, ok := v.(ssa.Instruction); ok {
+			for _, op := range ins.Operands(nil) {
+				if *op != nil && walk(*op) {
+					return true
+				}
+			}
+		}
+		return false
+	}
+	return walk(v)
 }
